@@ -95,6 +95,31 @@ def read_bytes(path):
         return None
 
 
+class FaultyStdout(io.StringIO):
+    """sys.stdout whose consumer goes away: 'BrokenPipeError' on the first
+    write (reader closed the pipe), 'ENOSPC' on the final flush (output
+    redirected to a full disk)."""
+
+    def __init__(self, kind):
+        io.StringIO.__init__(self)
+        self.kind = kind
+        self.fired = 0
+        self.n = 0
+
+    def write(self, s):
+        self.n += 1
+        if self.kind == "BrokenPipeError" and s:
+            self.fired = self.n
+            raise BrokenPipeError(32, "Broken pipe")
+        return io.StringIO.write(self, s)
+
+    def flush(self):
+        if self.kind == "ENOSPC" and self.n:
+            self.fired = self.n
+            raise OSError(28, "No space left on device")
+        return io.StringIO.flush(self)
+
+
 class FaultyFile(object):
     def __init__(self, real, env):
         self._real, self._env = real, env
@@ -222,6 +247,7 @@ def make_cli(entry, script_idx, faults=True, placeholders=("none",), strats=(0,)
         minimal = nbformat.v4.new_notebook()
         td = tempfile.mkdtemp(prefix="vfc08")
         env = Env(E, fault_step, fault_kind)
+        fake_out = None
         try:
             paths = {}
             for name in ("base", "local", "remote"):
@@ -282,11 +308,39 @@ def make_cli(entry, script_idx, faults=True, placeholders=("none",), strats=(0,)
                             a.out = None
                         elif om == "decisions-file":
                             a.decisions = True
-                        real_stdout, sys.stdout = sys.stdout, io.StringIO()
-                        try:
-                            status = app.main_merge(a)
-                        finally:
-                            captured, sys.stdout = sys.stdout.getvalue(), real_stdout
+                        if om == "stdout":
+                            # through the real main() and argument parser, the
+                            # way the console script runs; the terminal / pipe
+                            # behind sys.stdout may fail (reader gone, disk full)
+                            sofault = E.choice("stdout-fault", 3)
+                            fake_out = FaultyStdout(("none", "BrokenPipeError", "ENOSPC")[sofault])
+                            argv = ["--merge-strategy", strat[0]]
+                            if strat[1]:
+                                argv += ["--input-strategy", strat[1]]
+                            if strat[2]:
+                                argv += ["--output-strategy", strat[2]]
+                            if not strat[3]:
+                                argv += ["--no-ignore-transients"]
+                            argv += [paths["base"], paths["local"], paths["remote"]]
+                            import nbdime.args as nargs
+                            sv = nargs.get_defaults_for_argparse
+                            nargs.get_defaults_for_argparse = lambda ep: {}
+                            real_stdout, sys.stdout = sys.stdout, fake_out
+                            try:
+                                status = app.main(argv)
+                                # what the interpreter does when main() returns
+                                sys.stdout.flush()
+                            finally:
+                                nargs.get_defaults_for_argparse = sv
+                                captured, sys.stdout = fake_out.getvalue(), real_stdout
+                                import logging
+                                logging.disable(logging.CRITICAL)
+                        else:
+                            real_stdout, sys.stdout = sys.stdout, io.StringIO()
+                            try:
+                                status = app.main_merge(a)
+                            finally:
+                                captured, sys.stdout = sys.stdout.getvalue(), real_stdout
                     else:
                         from nbdime.vcs.git import mergedriver
                         import nbdime.args as nargs
@@ -318,6 +372,13 @@ def make_cli(entry, script_idx, faults=True, placeholders=("none",), strats=(0,)
                 entry, script_idx, ph, om, strat, fault_step, fault_kind, fired, status,
                 (type(exc).__name__ + ": " + str(exc)[:80]) if exc else None)
             E.nontrivial(fired is not None or (lib is not None and len(lib[1]) > 0))
+            if om == "stdout" and entry == "nbmerge" and fake_out.fired:
+                E.goal("stdout-fault-" + fake_out.kind)
+                E.check("never-reports-success-after-a-failed-write-to-stdout",
+                        exc is not None or (status is not None and status != 0),
+                        info=info + " stdout fault %s at write %d" % (fake_out.kind, fake_out.fired))
+                E.check("stdout-mode-leaves-output-file-untouched", after == before, info=info)
+                return
             if exc is not None and not fired:
                 E.fail("command-raised-without-fault", info)
                 return
